@@ -274,6 +274,8 @@ def deep_texts():
     for k, lit in (("huge_int", "7" * 5000), ("huge_neg_int", "-" + "3" * 4400), ("huge_float", "1." + "5" * 5000)):
         out.append((k, "Struct Sn\n    a: number\nEnd\nTask productionTask\n    Sv\n        In\n"
                        "            Sn\n            {\"a\": " + lit + "}\nEnd\n"))
+    out.append(("huge_loop_limit", "Task productionTask\n    Loop i To " + "9" * 5000 + "\n        Move\nEnd\n"))
+    out.append(("huge_array_length", "Struct Sn\n    a: number[" + "9" * 5000 + "]\nEnd\nTask productionTask\n    Move\nEnd\n"))
     out.append(("huge_guard_int", "Task productionTask\n    Loop While " + "9" * 5000 + " < 1\n        Move\nEnd\n"))
     return out
 
